@@ -104,7 +104,7 @@ CHECKS = {
         "batches": [
             {"engine": "dkgsim", "mode": "chaos", "runs": {"quick": 150000, "thorough": 3000000}, "budget": {"quick": 60, "thorough": 1500}},
         ],
-        "rule": ("chaos mode (see C09) with the lifecycle oracles: a reference state machine {idle, running(k timeouts), ended} predicts the error class of every call and Running(); "
+        "rule": ("chaos mode (see C09; incl. the boundary-configuration runs, whose Start / two timeouts / End are all legal and must be accepted whatever the group size) with the lifecycle oracles: a reference state machine {idle, running(k timeouts), ended} predicts the error class of every call and Running(); "
                  "differential twin: every run with at least one rejected call is executed a second time from the same choice log with the rejected calls left out, and all emitted "
                  "messages, callbacks, error classes and End results must be identical. Non-trivial = at least one rejected call; distinct = distinct hash of the (action, phase, timeouts) sequence"),
         "time_unit": "API calls on DKG instances",
